@@ -7,3 +7,6 @@ pub mod e2e;
 pub mod hostile;
 pub mod reqrep_e2e;
 pub mod reconnect;
+pub mod names;
+pub mod mtls;
+pub mod stall;
